@@ -325,13 +325,21 @@ func genMapRanges(p *pkgFiles, out *strings.Builder) {
 	out.WriteString("]\n\n")
 }
 
-func genFacts(p *pkgFiles, repo string) string {
-	var out strings.Builder
-	out.WriteString("/-\n  GENERATED by /verif/tools/extract from /repo/ecs — do not edit.\n  T2: structural facts about the Go source, as plain data; closed statements about them are\n  decided in Ark/Props.\n-/\n\nnamespace Ark.Generated\n\n")
-	genLockFirst(p, &out)
-	genAliveGuards(p, &out)
-	genMapRanges(p, &out)
-	genExtraFacts(p, repo, &out)
-	out.WriteString("end Ark.Generated\n")
-	return out.String()
+func genFacts(p *pkgFiles, repo string, files map[string]string, templates bool) {
+	one := func(name, what, frag string, gen func(out *strings.Builder)) {
+		var out strings.Builder
+		out.WriteString("/-\n  GENERATED by /verif/tools/extract from /repo/ecs — do not edit.\n  T2: " + what + " — plain data; closed statements about it are decided in Ark/Props.\n-/\n\nnamespace Ark.Generated\n\n")
+		fragment(&out, frag, gen)
+		out.WriteString("end Ark.Generated\n")
+		files[name] = out.String()
+	}
+	one("FactsLock", "structural entry points check the lock first", "facts:lockFirst", func(o *strings.Builder) { genLockFirst(p, o) })
+	one("FactsAlive", "entity-taking methods check Alive before reading the index", "facts:aliveGuards", func(o *strings.Builder) { genAliveGuards(p, o) })
+	one("FactsMapRanges", "iterations over Go maps", "facts:mapRanges", func(o *strings.Builder) { genMapRanges(p, o) })
+	one("FactsWiring", "typed wrappers pass their type parameters in order", "facts:arityWiring", func(o *strings.Builder) { genWiring(p, o) })
+	if templates {
+		one("FactsTemplates", "generated files equal the generator's output", "facts:templateMatches", func(o *strings.Builder) { genTemplateEquality(repo, o) })
+	}
+	one("FactsMutex", "mutex-protected regions", "facts:mutexRegions", func(o *strings.Builder) { genMutexRegions(p, o) })
+	one("FactsEvents", "order of events and mutations", "facts:eventOrder", func(o *strings.Builder) { genEventOrder(p, o) })
 }
